@@ -734,6 +734,13 @@ def as_comprehension(fn, v):
     return None
 
 
+def affine_in(rows, K):
+    """rows == K * <something>  (either operand order)."""
+    if isinstance(rows, ast.BinOp) and isinstance(rows.op, ast.Mult):
+        return const(rows.left) == K or const(rows.right) == K
+    return None
+
+
 def single_return(fn):
     rets = astq.returns(fn)
     return rets[0] if len(rets) == 1 else None
@@ -834,13 +841,14 @@ class Checker:
             t = t[2]
         return out
 
-    def r1_table(self, cls, table, loc):
+    def r1_table(self, cls, table, loc, only_definition=False):
         """The decoding table must be the one that defines the column order."""
         ctx, name = self.ctx, cls.name
-        c = name + ".predict:table"
+        c = name + ".predict:table" if not only_definition else None
         hf = self.method(cls, "fit")
         if table == ("self", "classes_"):
-            ctx.ok("R1", c, "decoded through self.classes_", loc)
+            if c is not None:
+                ctx.ok("R1", c, "decoded through self.classes_", loc)
             if hf is None:
                 ctx.undecided("R1", name + ".fit:classes_", "fit is not a repo method", loc)
                 return ("classes_",)
@@ -990,6 +998,8 @@ class Checker:
                   "the vote of row %s lands in column %s, not in class_dictionary[self.predict(X)[row]]" % (
                       astq.canon(row), astq.canon(col)[:80]), self.loc(k, a))
         self.class_dictionary(cls)
+        # the dictionary enumerates classes_: classes_ itself must be the sorted distinct training labels
+        self.r1_table(cls, ("self", "classes_"), loc, only_definition=True)
         return ("one-hot",)
 
     def is_row_loop_var(self, fn, var, panel):
@@ -1736,6 +1746,116 @@ class Checker:
                 ctx.ok("R1", c, "labels leave %s with the same values in the same order (to_numpy / check_y only)" % fname,
                        self.ctx.loc(mod, fn))
 
+    def feature_rows(self):
+        """R2 (time series forest features): `_transform` fills a (K * n_intervals, n_instances) buffer with K statistics per
+        interval j at rows K*j + b; the offsets b must be exactly 0..K-1 (every row written once, none overwritten, none
+        left uninitialised) and the statistics are mean, std and slope of the same interval slice."""
+        ctx = self.ctx
+        rel = "sktime/series_as_features/base/estimators/interval_based/_tsf.py"
+        mod = self.repo.module(rel)
+        fn = self.repo.func(rel, "_transform")
+        sc = Scope(self.repo, mod, fn)
+        loc = self.ctx.loc(mod, fn)
+        c = "_transform:feature-rows"
+        loops = [n for n in astq.walk_no_nested(fn) if isinstance(n, ast.For) and isinstance(n.target, ast.Name)]
+        bufs = {}
+        for n in astq.walk_no_nested(fn):
+            if isinstance(n, ast.Assign) and len(n.targets) == 1 and isinstance(n.targets[0], ast.Name) \
+                    and isinstance(n.value, ast.Call) and sc.ext(n.value.func) in ("numpy.empty", "numpy.zeros"):
+                shp = kw(n.value, "shape") or (n.value.args[0] if n.value.args else None)
+                if isinstance(shp, (ast.Tuple, ast.List)) and shp.elts:
+                    bufs[n.targets[0].id] = shp.elts[0]
+        if len(loops) != 1 or len(bufs) != 1:
+            ctx.undecided("R2", c, "expected one interval loop and one feature buffer", loc)
+            return
+        loop = loops[0]
+        var = loop.target.id
+        buf, rows = next(iter(bufs.items()))
+
+        def affine(e):
+            """e == a * var + b  ->  (a, b)"""
+            k = const(e)
+            if isinstance(k, int):
+                return (0, k)
+            if isinstance(e, ast.Name) and e.id == var:
+                return (1, 0)
+            if isinstance(e, ast.Name):
+                vals = [a.value for a in loop.body if isinstance(a, ast.Assign) and len(a.targets) == 1
+                        and isinstance(a.targets[0], ast.Name) and a.targets[0].id == e.id]
+                return affine(vals[0]) if len(vals) == 1 else None
+            if isinstance(e, ast.BinOp) and isinstance(e.op, (ast.Add, ast.Sub)):
+                l, r = affine(e.left), affine(e.right)
+                if l is None or r is None:
+                    return None
+                sg = 1 if isinstance(e.op, ast.Add) else -1
+                return (l[0] + sg * r[0], l[1] + sg * r[1])
+            if isinstance(e, ast.BinOp) and isinstance(e.op, ast.Mult):
+                l, r = affine(e.left), affine(e.right)
+                if l is None or r is None:
+                    return None
+                if l[0] == 0:
+                    return (l[1] * r[0], l[1] * r[1])
+                if r[0] == 0:
+                    return (r[1] * l[0], r[1] * l[1])
+            return None
+
+        stores = [st for st in loop.body if isinstance(st, ast.Assign) and len(st.targets) == 1
+                  and isinstance(st.targets[0], ast.Subscript) and isinstance(st.targets[0].value, ast.Name)
+                  and st.targets[0].value.id == buf]
+        forms = [affine(st.targets[0].slice) for st in stores]
+        values = [st.value for st in stores]
+        value_scope, value_body = sc, loop.body
+        if not stores:
+            # the rows of interval j are handed to a helper as a slice view buf[lo:hi] and written there as out[b]
+            for st0 in loop.body:
+                for call in astq.calls(st0):
+                    views = [(i, a) for i, a in enumerate(call.args) if isinstance(a, ast.Subscript) and isinstance(a.value, ast.Name)
+                             and a.value.id == buf and isinstance(a.slice, ast.Slice) and a.slice.step is None]
+                    sym = self.repo.resolve_name(mod, call.func.id) if isinstance(call.func, ast.Name) else None
+                    if len(views) == 1 and sym is not None and sym.kind == "func":
+                        i, view = views[0]
+                        lo, hi = affine(view.slice.lower) if view.slice.lower is not None else (0, 0), \
+                            affine(view.slice.upper) if view.slice.upper is not None else None
+                        b = astq.bind_call(sym.target, call)
+                        outp = [p0 for p0, a0 in (b or {}).items() if a0 is view]
+                        if lo is None or hi is None or not outp:
+                            continue
+                        inner = [x for x in sym.target.body if isinstance(x, ast.Assign) and len(x.targets) == 1
+                                 and isinstance(x.targets[0], ast.Subscript) and isinstance(x.targets[0].value, ast.Name)
+                                 and x.targets[0].value.id == outp[0] and isinstance(const(x.targets[0].slice), int)]
+                        if inner and hi[0] == lo[0] and hi[1] - lo[1] == len(inner):
+                            stores = inner
+                            forms = [(lo[0], lo[1] + const(x.targets[0].slice)) for x in inner]
+                            values = [x.value for x in inner]
+                            value_scope, value_body = Scope(self.repo, sym.module, sym.target), sym.target.body
+        if not stores or any(f is None for f in forms):
+            ctx.undecided("R2", c, "feature row indices are not affine in the interval index", loc)
+            return
+        K = len(stores)
+        coefs = {f[0] for f in forms}
+        offs = sorted(f[1] for f in forms)
+        rows_form = affine_in(rows, K)
+        good = coefs == {K} and offs == list(range(K))
+        ctx.check(good, "R2", c, "interval j fills rows %d*j + {0..%d}: every feature row is written exactly once" % (K, K - 1),
+                  "interval j writes rows %s: the rows %d*j + {0..%d} are not each written once (a statistic overwrites the row of "
+                  "another interval / a row keeps the uninitialised content of np.empty)" % (
+                      ", ".join("%d*j%+d" % f for f in forms), K, K - 1), self.ctx.loc(mod, stores[0]),
+                  witness={"j": 0, "rows": [f[1] for f in forms]})
+        ctx.check(rows_form, "R2", "_transform:feature-buffer", "buffer has %d rows per interval" % K,
+                  "the buffer is allocated with %s rows, not %d per interval" % (astq.canon(rows), K), self.ctx.loc(mod, fn))
+        # the three statistics
+        kinds = []
+        for v in values:
+            if isinstance(v, ast.Name):
+                vals = [a.value for a in value_body if isinstance(a, ast.Assign) and len(a.targets) == 1
+                        and isinstance(a.targets[0], ast.Name) and a.targets[0].id == v.id]
+                v = vals[0] if len(vals) == 1 else v
+            k = value_scope.ext(v.func) if isinstance(v, ast.Call) else None
+            kinds.append(k)
+        want = {"numpy.mean", "numpy.std", "sktime.utils.slope_and_trend._slope"}
+        ctx.check(set(kinds) == want if all(kinds) else None, "R2", "_transform:statistics", "features are mean, std and slope of the slice",
+                  "the per-interval statistics are %s, not mean / std / slope" % sorted(str(k) for k in kinds), self.ctx.loc(mod, loop))
+
     def empty_selection(self, cls):
         """R2 conformance: `_iter(replace_strings=True)` skips a member when `_is_empty_column_selection(column)`; the average
         then runs over the remaining members.  A Boolean mask is empty iff *no* entry is True."""
@@ -2071,12 +2191,13 @@ def run(ctx):
         ck.r3(cls)
     ck.label_validators()
     ck.empty_selection(base)
+    ck.feature_rows()
     ck.r3(base, methods=("predict",))
     reg = repo.cls(REGRESSOR[0] + ":" + REGRESSOR[1])
     ck.r2_forest(reg, method="predict", member_method="predict")
     ck.r3(reg, methods=("predict",), score="r2")
     rb = repo.cls("sktime/regression/base.py:BaseRegressor")
     ck.score(rb, rb, repo.func("sktime/regression/base.py", "BaseRegressor.score"), "r2")
-    ctx.floor("R1", 50)
-    ctx.floor("R2", 86)
+    ctx.floor("R1", 52)
+    ctx.floor("R2", 89)
     ctx.floor("R3", 44)
